@@ -255,6 +255,45 @@ def only_error_from(ctx, inst, body, sw, label, what):
               None if not (bad or muts) else {"witness": R.witness(body, ps, r.get((bad + muts)[0]))})
 
 
+def check_report(ctx):
+    """initial free set and the reported figures: a fresh manager holds exactly one run [DATA_START, total_sectors); the getters
+    report the running total, the number of runs of the by-start view and the last (largest) run of the by-size view"""
+    from rules.common import pin_comparisons
+    inst = "C06.report"
+    b = ctx.fn("FreeSpaceManager::initialize", inst)
+    if b is not None:
+        ins = ctx.sites(b, R.call("FreeSpaceManager::insert_free_space"), inst, exact=1)
+        for x in ins:
+            v = R.arg_expr(b, b.nodes[x], 1)
+            ok = v.k == "agg" and len(v.a) == 2 and v.a[0].has_const(name="FEOX_DATA_START_BLOCK") and v.a[0].k == "const" and \
+                v.a[1].k == "bin" and v.a[1].extra.startswith("Sub") and v.a[1].a[0].k == "bin" and v.a[1].a[0].extra == "Div" and v.a[1].a[0].has_arg(idx=2) and \
+                v.a[1].a[1].has_const(name="FEOX_DATA_START_BLOCK")
+            ctx.check(ok, inst, "PIN", b.path, "the initial free run is (FEOX_DATA_START_BLOCK, device_size / BLOCK - FEOX_DATA_START_BLOCK)", b.where(x), {"run": v.show()[:120]})
+        def tot(e):
+            return e.k == "bin" and e.extra == "Div" and e.has_arg(idx=2)
+        pin_comparisons(ctx, inst, b, [
+            ("Lt", lambda e: e.k == "const" and e.has_const(name="FEOX_DATA_START_BLOCK"), tot, "a device without a data area is refused (`total_sectors <= FEOX_DATA_START_BLOCK`)"),
+        ])
+    for fn, fld, what in (("FreeSpaceManager::get_total_free", "total_free", "the running total"),):
+        g = ctx.fn(fn, inst)
+        if g is not None:
+            v = A.tracer(g).node_value(g.defs[0][0]) if len(g.defs.get(0, [])) == 1 else None
+            ctx.check(v is not None and v.k == "field" and v.extra[1] == fld, inst, "PIN", g.path, "reports " + what, None)
+    g = ctx.fn("FreeSpaceManager::get_free_chunks_count", inst)
+    if g is not None:
+        v = A.tracer(g).node_value(g.defs[0][0]) if len(g.defs.get(0, [])) == 1 else None
+        ctx.check(v is not None and v.has_call("BTreeMap::len") and v.has_field("FreeSpaceManager", "by_start"), inst, "PIN", g.path, "the run count is the size of the by-start view", None)
+    g = ctx.fn("FreeSpaceManager::get_largest_free_chunk", inst)
+    if g is not None:
+        fam = ctx.prog.family(g)
+        nb = [n for bb in fam for n in bb.calls() if R.call_matches(n.ev, "Iterator::next_back") or R.call_matches(n.ev, "DoubleEndedIterator::next_back") or R.call_matches(n.ev, "BTreeMap::last_key_value") or R.call_matches(n.ev, "BTreeSet::last")]
+        ctx.check(len(nb) == 1, inst, "PIN", g.path, "the largest run is the last entry of the by-size view", None)
+    u = ctx.fn("FreeSpaceManager::update_fragmentation", inst)
+    if u is not None:
+        nb = [n for bb in ctx.prog.family(u) for n in bb.calls() if R.call_matches(n.ev, "Iterator::next_back") or R.call_matches(n.ev, "DoubleEndedIterator::next_back")]
+        ctx.check(len(nb) == 1, inst, "PIN", u.path, "fragmentation is measured against the largest run (last entry of the by-size view)", None)
+
+
 def check_valid(ctx):
     """the two range-validity predicates that gate every release / insertion: bounds are exclusive-end against the device's
     sector count, the data-area start is inclusive, empty ranges are refused (operands and strictness pinned)"""
@@ -298,6 +337,7 @@ def check_valid(ctx):
 
 
 def check(ctx):
+    check_report(ctx)
     check_valid(ctx)
     check_pair(ctx)
     check_atomic(ctx)
